@@ -276,7 +276,8 @@ def run(tier="quick"):
     # gives that letter
     ESC_REF = {ord("n"): 10, ord("r"): 13, ord("t"): 9, ord("b"): 8, ord("f"): 12, ord("a"): 7, ord("v"): 11, ord("e"): 27}
     nesc = 0
-    for sw in [x for x in walk(f.body) if x.get("k") == "switch"]:
+    from ..listrules import unit_closure
+    for fsw, sw in [(g_, x) for g_ in unit_closure(f) if g_.body is not None for x in walk(g_.body) if x.get("k") == "switch"]:
         body = sw.get("body")
         if body is None or body.get("k") != "block":
             continue
@@ -303,9 +304,14 @@ def run(tier="quick"):
                     seq.append(stmts[j_])
                     j_ += 1
                 for q in seq:
-                    if q.get("k") == "assign" and q.get("op") == "=" and X.strip(q["ch"][0]).get("k") == "index" and X.const_val(q["ch"][1]) is not None:
+                    # the character the letter stands for: stored into the result, into a local, or returned (a helper)
+                    if q.get("k") == "assign" and q.get("op") == "=" and X.strip(q["ch"][0]).get("k") in ("index", "ref") and X.const_val(q["ch"][1]) is not None:
                         for lv in labels:
                             entries.append((lv, X.const_val(q["ch"][1]), q))
+                        break
+                    if q.get("k") == "return" and q.get("val") is not None and X.const_val(q["val"]) is not None:
+                        for lv in labels:
+                            entries.append((lv, X.const_val(q["val"]), q))
                         break
                 if j_ < len(stmts) and stmts[j_].get("k") == "break":
                     labels = []
@@ -317,8 +323,8 @@ def run(tier="quick"):
             continue
         for lv, cv, q in letters:
             nesc += 1
-            chk.ob("V7", f.name, "escape:\\%s" % chr(lv), cv == ESC_REF[lv], loc=f.loc(q),
-                   detail="%s turns backslash-%s into character %d; the control character that letter names is %d" % (f.name, chr(lv), cv, ESC_REF[lv]),
+            chk.ob("V7", fsw.name, "escape:\\%s" % chr(lv), cv == ESC_REF[lv], loc=fsw.loc(q),
+                   detail="%s turns backslash-%s into character %d; the control character that letter names is %d" % (fsw.name, chr(lv), cv, ESC_REF[lv]),
                    proof="\\%s -> %d" % (chr(lv), cv))
     chk.count("escape_table_entries", nesc, floor=6)
     # ---- B1 the built-ins the expansion calls keep every write inside their own buffers (the command line built by %exec,
